@@ -162,6 +162,9 @@ func CheckObservers(p *Point, want ref.Pt) string {
 		if g := p.IsYOdd(); g != uint64(want.Y.Bit(0)) {
 			return fmt.Sprintf("IsYOdd=%d, model %d", g, want.Y.Bit(0))
 		}
+	} else if g, c := p.IsYOdd(), secp256k1.NewIdentityPoint().IsYOdd(); g != c {
+		// the identity has no y: whatever the test answers, it answers it for every representative of the identity
+		return fmt.Sprintf("IsYOdd of this identity representative = %d, of NewIdentityPoint() = %d (depends on the representative)", g, c)
 	}
 	if g := p.CompressedBytes(); !bytes.Equal(g, want.Compressed()) {
 		return fmt.Sprintf("CompressedBytes=%x, model %x", g, want.Compressed())
